@@ -74,6 +74,13 @@ pub mod verif_hooks {
     pub fn meta_byte_lshift(spec: &SideMetadataSpec, data_addr: Address) -> u8 {
         super::helpers::meta_byte_lshift(spec, data_addr)
     }
+    /// See `sanity::verif_check_specs`.
+    pub fn sanity_check_specs(
+        global: &[SideMetadataSpec],
+        local: &[SideMetadataSpec],
+    ) -> Result<(), String> {
+        super::sanity::verif_check_specs(global, local)
+    }
     /// See `helpers::metadata_address_range_size`.
     pub fn metadata_address_range_size(spec: &SideMetadataSpec) -> usize {
         super::helpers::metadata_address_range_size(spec)
